@@ -18,6 +18,60 @@ import (
 func init() {
 	commands["oracle-C11"] = oracleC11
 	commands["c11-worker"] = c11Worker
+	commands["c11-alone"] = c11Alone
+}
+
+// c11-alone: the pipeline of ONE task in a process of its own ("the result obtained when the same work is
+// done alone"): -file = tasks as JSON, -only = index.
+func c11Alone() *Result {
+	var tasks []c11Task
+	b, err := os.ReadFile(opts.File)
+	if err != nil || json.Unmarshal(b, &tasks) != nil {
+		fmt.Println("bad-tasks")
+		return &Result{}
+	}
+	var i int
+	fmt.Sscan(opts.Only, &i)
+	if i < 0 || i >= len(tasks) {
+		fmt.Println("bad-index")
+		return &Result{}
+	}
+	fmt.Println("fp " + pipelineFingerprint(tasks[i]))
+	return &Result{}
+}
+
+// aloneBaseline computes every task's fingerprint in a fresh process, 16 at a time.
+func aloneBaseline(tasks []c11Task) []string {
+	self, err := os.Executable()
+	if err != nil {
+		return nil
+	}
+	tf := filepath.Join(opts.Verif, ".cache", "c11-tasks.json")
+	b, _ := json.Marshal(tasks)
+	if os.WriteFile(tf, b, 0o644) != nil {
+		return nil
+	}
+	out := make([]string, len(tasks))
+	sem := make(chan struct{}, 16)
+	var wg sync.WaitGroup
+	for i := range tasks {
+		wg.Add(1)
+		sem <- struct{}{}
+		go func(i int) {
+			defer wg.Done()
+			defer func() { <-sem }()
+			cmd := exec.Command(self, "c11-alone", "-file", tf, "-only", fmt.Sprint(i), "-verif", opts.Verif, "-repo", opts.Repo)
+			cmd.Env = append(os.Environ(), "GORACE=halt_on_error=0 exitcode=0")
+			o, _ := cmd.Output()
+			for _, l := range strings.Split(string(o), "\n") {
+				if strings.HasPrefix(l, "fp ") {
+					out[i] = l[3:]
+				}
+			}
+		}(i)
+	}
+	wg.Wait()
+	return out
 }
 
 type c11Task struct {
@@ -75,9 +129,49 @@ func c11Worker() *Result {
 	// the same input twice (determinism) and long inputs (pool blocks)
 	long := bytes.Repeat([]byte("<?php namespace A; use B\\C; function f(C $x): C { return new C([1, 2, 3], \"a $x[0] {$y->z}\"); }\n"), 120)
 	tasks = append(tasks, c11Task{long, 7, 4}, c11Task{long, 7, 4}, c11Task{long, 5, 6})
-	base := make([]string, len(tasks))
-	for i, t := range tasks {
-		base[i] = pipelineFingerprint(t)
+	// inputs that end in recovery or in the lexer's error paths: state left behind by one parse (a call stack,
+	// a pooled buffer) shows on the next one only when the next one leaves the beaten track
+	for _, e := range []string{"<?php } echo 1;\n$b = 2;", "<?php echo \"{$a}\";", "<?php echo \"${a}\"; }", "<?php echo <<<A\n{$a}\nA;\n", "<? } }", "<?php `{$a}`; } $c;",
+		"<?php $a = ;", "<?php function f( { } $x;", "<?php \"$a[", "<?php foo(1, 2", "<?php class { }", "<?php 'abc", "<?php /* c", "abc <?= $a ?> } <?php }"} {
+		for _, v := range vers {
+			tasks = append(tasks, c11Task{[]byte(e), v[0], v[1]})
+		}
+	}
+	nerr := 120
+	if opts.Tier == "thorough" {
+		nerr = 1500
+	}
+	for i := 0; i < nerr && len(srcs) > 0; i++ {
+		s := srcs[rng.Intn(len(srcs))]
+		if len(s) < 4 || len(s) > 4000 {
+			continue
+		}
+		a, b := rng.Intn(len(s)), rng.Intn(len(s))
+		if a > b {
+			a, b = b, a
+		}
+		v := vers[rng.Intn(len(vers))]
+		tasks = append(tasks, c11Task{append(append([]byte(nil), s[:a]...), s[b:]...), v[0], v[1]})
+	}
+	rng.Shuffle(len(tasks), func(i, j int) { tasks[i], tasks[j] = tasks[j], tasks[i] })
+	// "alone": every pipeline in a process of its own
+	base := aloneBaseline(tasks)
+	if base == nil {
+		base = make([]string, len(tasks))
+	}
+	// one after the other in this process, in two different orders
+	for round := 0; round < 2; round++ {
+		order := rng.Perm(len(tasks))
+		for _, i := range order {
+			r.Evaluations++
+			fp := pipelineFingerprint(tasks[i])
+			if base[i] == "" {
+				base[i] = fp
+			} else if fp != base[i] {
+				r.fail(Failure{Site: "sequential-differs", Kind: "history", Input: printable(tasks[i].Src), Config: fmt.Sprintf("%d.%d after other pipelines in the same process", tasks[i].Maj, tasks[i].Min),
+					Detail: "result of the pipeline run after other pipelines in one process differs from its result in a process of its own"})
+			}
+		}
 	}
 	for _, n := range []int{4, 16, 64} {
 		got := make([]string, len(tasks))
@@ -114,8 +208,16 @@ func c11Worker() *Result {
 			r.DistinctNontrivial++
 		}
 	}
-	if base[len(base)-3] != base[len(base)-2] {
-		r.fail(Failure{Site: "nondeterministic", Kind: "input", Input: "long input twice", Detail: "parsing the same input twice gave different results"})
+	first := map[string]int{}
+	for i := range tasks {
+		k := hashKey(string(tasks[i].Src), fmt.Sprint(tasks[i].Maj, tasks[i].Min))
+		if j, ok := first[k]; ok {
+			if base[i] != base[j] {
+				r.fail(Failure{Site: "nondeterministic", Kind: "input", Input: printable(tasks[i].Src), Detail: "parsing the same input twice gave different results"})
+			}
+		} else {
+			first[k] = i
+		}
 	}
 	r.sample(map[string]string{"pipelines": fmt.Sprint(len(tasks)), "goroutines": "4,16,64", "example": printable(tasks[0].Src)})
 	return r
